@@ -126,6 +126,10 @@ enum SStep {
     GaugeInc(usize, f64),
     Record(usize, f64),
     RecordMany(usize, f64, usize),
+    /// mixed-use key `cm`: increment
+    MixInc(u64),
+    /// mixed-use key `cm`: absolute; selector for the first value of a run (below / equal to / above the total so far) and a step
+    MixAbs(u8, u64),
     Flush,
 }
 
@@ -140,8 +144,20 @@ fn decode_seq(src: &mut Source) -> SeqCase {
     let n = 2 + src.below(29);
     let steps = (0..n)
         .map(|_| match src.below(8) {
-            0 | 1 => SStep::Inc(src.below(2), 1 + src.int_in(0, 1000)),
-            2 => SStep::Abs(src.below(2), src.int_in(1, 50)), // increment over the previous absolute value
+            0 | 1 => {
+                if src.chance(40) {
+                    SStep::MixInc(1 + src.int_in(0, 1000))
+                } else {
+                    SStep::Inc(src.below(2), 1 + src.int_in(0, 1000))
+                }
+            }
+            2 => {
+                if src.chance(100) {
+                    SStep::MixAbs(src.below(3) as u8, src.int_in(0, 50))
+                } else {
+                    SStep::Abs(src.below(2), src.int_in(1, 50)) // increment over the previous absolute value
+                }
+            }
             3 => SStep::GaugeSet(src.below(2), src.f64_interesting()),
             4 => SStep::GaugeInc(src.below(2), src.f64_dyadic()),
             5 => SStep::Record(src.below(2), if src.bool() { src.f64_dyadic() } else { src.f64_interesting() }),
@@ -181,8 +197,37 @@ pub fn case_seq(bytes: &[u8], _s: &[u8], ctx: &mut Ctx) -> Result<(), Fail> {
     let mut gauges: [Option<f64>; 2] = [None, None];
     let mut hists: [Option<Vec<f64>>; 2] = [None, None];
     let mut prev_was_flush = false;
+    // mixed-use counter `cm`: only an upper bound is asserted (see the assumption registered in run())
+    let (mut mix_total, mut mix_run_last, mut mix_generous, mut mix_sent, mut mix_registered) = (0u64, None::<u64>, 0u128, 0u128, false);
     for (si, step) in case.steps.iter().enumerate() {
         match step {
+            SStep::MixInc(d) => {
+                rec.register_counter(&key("cm"), &META).increment(*d);
+                mix_registered = true;
+                mix_generous += *d as u128;
+                mix_total += *d;
+                mix_run_last = None;
+            }
+            SStep::MixAbs(sel, d) => {
+                let v = match (mix_run_last, sel) {
+                    (Some(l), _) => l + d,
+                    (None, 0) => mix_total / 2,
+                    (None, 1) => mix_total,
+                    (None, _) => mix_total + d,
+                };
+                rec.register_counter(&key("cm"), &META).absolute(v);
+                mix_registered = true;
+                // reading A (this exporter's documentation): the first absolute value of a run is a baseline, later
+                // ones add their growth; reading B (metrics' own atomic counter): absolute raises the total to v
+                let adds_a = mix_run_last.map(|l| v - l).unwrap_or(0);
+                let adds_b = v.saturating_sub(mix_total);
+                mix_generous += adds_a.max(adds_b) as u128;
+                if mix_run_last.is_none() && v < mix_total {
+                    ctx.nontrivial("mixed-counter-first-absolute-below-its-total");
+                }
+                mix_total = mix_total.max(v);
+                mix_run_last = Some(v);
+            }
             SStep::Inc(i, v) => {
                 rec.register_counter(&key(&format!("ci{}", i)), &META).increment(*v);
                 let m = &mut inc[*i];
@@ -271,6 +316,18 @@ pub fn case_seq(bytes: &[u8], _s: &[u8], ctx: &mut Ctx) -> Result<(), Fail> {
                         }
                         m.pending = 0;
                         m.updates = 0;
+                    }
+                }
+                {
+                    let got = of(c, &msgs, "cm");
+                    accounted += got.len();
+                    ensure!(mix_registered || got.is_empty(), "message-for-unregistered-counter", "cm never registered but sent");
+                    ensure!(got.len() <= 1, "counter-message-count", "mixed-use counter: {} messages in one flush: {:?}", got.len(), got);
+                    for m in &got {
+                        check_common(c, m, &own, "c")?;
+                        let d: u64 = m.values.first().and_then(|v| v.parse().ok()).ok_or_else(|| Fail::new("bad-value", format!("{:?}", m.values)))?;
+                        mix_sent += d as u128;
+                        ensure!(mix_sent <= mix_generous, "delta-exceeds-what-was-added", "mixed-use counter cm: this flush sent {} which brings the deltas to {}, but under the most generous reading of its increment/absolute history only {} was ever added", d, mix_sent, mix_generous);
                     }
                 }
                 for (i, g) in gauges.iter().enumerate() {
@@ -712,7 +769,8 @@ pub fn run(cfg: &RunCfg, replay: Option<&str>) -> i32 {
     if let Some(f) = replay {
         return pr.replay(f);
     }
-    pr.assume("per key a counter is increment-only or strictly-increasing-absolute-only (mixed use is outside the statement); increment(0) and repeated equal absolute values are not generated, so 'stops changing' has one meaning");
+    pr.assume("per key a counter is increment-only or strictly-increasing-absolute-only; increment(0) and repeated equal absolute values are not generated, so 'stops changing' has one meaning");
+    pr.assume("mixed increment/absolute use of one key (sequential lane, key cm) is outside the exact clauses of the statement; only 'no delta exceeds what was added' is asserted, cumulatively, against the more generous of two readings of absolute (first value of a run is a baseline / absolute raises the running total)");
     pr.assume("the known bucket window of C05 (push into a block a clear already detached) is fused shut in the schedule lane");
     pr.assume("SC interleavings at hook granularity");
     let r = pr.run_regressions();
